@@ -100,3 +100,77 @@ def gen_subtask_script(rng, mode, maxcalls, maxbody, stats=None, tasks=False):
         for t in body: stats["body:" + t[0]] += 1
         for t in host: stats["host:" + t[0]] += 1
     return f"{mode} | {' '.join(specs)} | {' '.join(body)} | {' '.join(host)}"
+
+
+# ---------------------------------------------------------------------------- stream / future scripts (C19/C20)
+
+def gen_chan_decl(rng, want, adapter_ok):
+    """<S|F><W|R><b|r|s><cx>[A]   (harness/rt-native/src/chan.rs); `want`: 'S', 'F' or None"""
+    fut = (want == "F") if want else rng.random() < 0.35
+    gw = rng.random() < 0.5
+    kind = rng.choice("rs") if fut else rng.choice("bbrsss")
+    cx = rng.choice([0, 0, 1, 2, 3, 4])
+    ad = "A" if (adapter_ok and not fut and not gw and rng.random() < 0.5) else ""
+    return ("F" if fut else "S") + ("W" if gw else "R") + kind + str(cx) + ad
+
+
+def gen_chan_script(rng, mode, maxbody, stats=None, want=None, adapter_ok=False, tasks=False, only=False):
+    """Body over the channel instructions and peer directives {T,P,D} for 1..3 channels.  Mostly sensible
+    (open first, start an operation before polling it, transfer before deliver) with a tail of arbitrary
+    orders; harness and model define every order (skips), so nothing generated is invalid."""
+    nch = rng.choice([1, 1, 1, 2, 2, 3])
+    decls = [gen_chan_decl(rng, want if (i == 0 or only) else None, adapter_ok) for i in range(nch)]
+    body, opened = [], set()
+    n = rng.randint(2, maxbody)
+    def start_op(c):
+        d = decls[c]
+        fut, gw = d[0] == "F", d[1] == "W"
+        if fut:
+            return f"f{c}"
+        if gw:
+            r = rng.random()
+            if r < 0.4: return f"w{c}:{rng.choice([0, 1, 1, 2, 3, 3, 5])}"
+            if r < 0.65: return f"W{c}:{rng.choice([0, 1, 2, 3, 4, 6])}"
+            if r < 0.8: return f"O{c}"
+            if r < 0.92: return f"b{c}"
+            return f"v{c}"
+        r = rng.random()
+        if d.endswith("A"): return f"n{c}"
+        if r < 0.45: return f"r{c}:{rng.choice([0, 1, 2, 2, 3, 4])}"
+        if r < 0.8: return f"n{c}"
+        return f"C{c}"
+    while len(body) < n:
+        c = rng.randrange(nch)
+        if c not in opened and rng.random() < 0.9:
+            opened.add(c); body.append(f"o{c}"); continue
+        r = rng.random()
+        if r < 0.30:
+            body.append(start_op(c))
+            if rng.random() < 0.7:
+                body.append(f"p{c}" if rng.random() < 0.6 else f"a{c}")
+        elif r < 0.52: body.append(f"p{c}")
+        elif r < 0.66: body.append(f"a{c}")
+        elif r < 0.74: body.append(f"x{c}")
+        elif r < 0.82: body.append(f"d{c}")
+        elif r < 0.87: body.append(f"e{c}")
+        elif r < 0.90: body.append(f"v{c}" if decls[c][:2] == "SW" else f"p{c}")
+        elif r < 0.93: body.append(f"b{c}" if decls[c][:2] == "SW" else f"a{c}")
+        elif r < 0.96: body.append("z" if mode != "export" else "y")
+        elif tasks and mode != "export" and r < 0.98: body.append(f"t{rng.choice([1, 2])}")
+        else: body.append("y")
+    host = []
+    m = rng.randint(0, 2 * maxbody)
+    for _ in range(m):
+        c = rng.randrange(nch)
+        r = rng.random()
+        if r < 0.42: host.append(f"T{c}:{rng.choice([1, 1, 1, 2, 2, 3, 5])}")
+        elif r < 0.52: host.append(f"P{c}")
+        else: host.append(f"D{c}")
+        if r < 0.42 and rng.random() < 0.6: host.append(f"D{c}")
+    if stats is not None:
+        stats["mode:" + mode] += 1
+        stats["chans:%d" % nch] += 1
+        for d in decls: stats["decl:" + d[:3] + ("A" if d.endswith("A") else "")] += 1
+        for t in body: stats["body:" + t[0]] += 1
+        for t in host: stats["host:" + t[0]] += 1
+    return f"{mode} | {' '.join(decls)} | {' '.join(body)} | {' '.join(host)}"
